@@ -166,6 +166,18 @@ ENTRY_PATHS = {False: ('indexmap::map::core::entry::Entry::Occupied', 'indexmap:
                True: ('alloc::collections::btree::map::entry::Entry::Occupied', 'alloc::collections::btree::map::entry::Entry::Vacant')}
 
 
+def _ref_depth(t):
+    """how many references a type is wrapped in (`&'a mut &T` is 2)"""
+    import re
+    n = 0
+    while True:
+        m = re.match(r"&\s*('[A-Za-z_]+\s+)?(mut\s+)?", t)
+        if not m:
+            return n
+        n += 1
+        t = t[m.end():]
+
+
 def _has_call(n):
     return any(x.get('k') in ('mcall', 'call') for x in walk(n))
 
@@ -187,6 +199,10 @@ class PlaceInterp(RecInterp):
         ty = (ty or '').replace('&mut ', '').replace('&', '').strip()
         facts = getattr(self.ev, 'facts', None)
         base = strip_generics(ty).split('<')[0]
+        if facts is not None and depth < 4 and facts.has_method('core::default::Default', base, 'default'):
+            dd = facts.method('core::default::Default', base, 'default')
+            if facts.has_body(dd) and not facts.body(dd).get('derived'):
+                return self.apply_fn(facts.body(dd), [])            # a hand-written Default
         if facts is not None and base in getattr(facts, 'adts', {}) and depth < 4 and not base.startswith('toml_edit::item::Item'):
             adt = facts.adts[base]
             if adt.get('kind') == 'struct' and adt.get('variants') and all(f.get('name') and not str(f['name']).isdigit() for f in adt['variants'][0].get('fields', [])):
@@ -235,7 +251,11 @@ class PlaceInterp(RecInterp):
             v = vals[0]
             moved = ('struct', v[1], dict(v[2]))
             v[2].clear()
-            v[2]['@default'] = True
+            dv = self._default_of(v[1])
+            if isinstance(dv, tuple) and len(dv) == 3 and dv[0] == 'struct' and isinstance(dv[2], dict):
+                v[2].update(dv[2])          # what Default gives for the type
+            else:
+                v[2]['@default'] = True
             return (moved,)
         if op == 'take' and len(vals) == 1 and isinstance(vals[0], VecObj):
             moved = VecObj(vals[0].items)
@@ -334,6 +354,20 @@ class PlaceInterp(RecInterp):
 
     # -- evaluation ----------------------------------------------------------------------------------------------------------
     def val(self, e, env):
+        adj = e.get('adj') or ''
+        if adj.count('*') >= 2 and adj.endswith('&') and (e.get('t') or '').startswith('&') and e.get('k') in ('addrof', 'path', 'field') and adj.count('*') > _ref_depth(e.get('t') or ''):
+            # a deref coercion at a use site (`&self.key` where a &str is wanted): the workspace's own Deref impl says what the reference stands for
+            v = self.val({kk: vv for kk, vv in e.items() if kk != 'adj'}, env)
+            t = (e.get('t') or '').lstrip('&').replace('mut ', '').strip()
+            dv = deref(v)
+            if isinstance(dv, tuple) and len(dv) == 3 and dv[0] in ('struct', 'ctor') and strip_generics(dv[1]).split('<')[0] == strip_generics(t).split('<')[0]:
+                facts = self.ev.facts
+                for imp in facts.impls:
+                    if imp.get('trait') == 'core::ops::deref::Deref' and strip_generics(imp.get('self_ty') or '').split('<')[0] == strip_generics(t).split('<')[0]:
+                        d = facts.impl_method(imp, 'deref')
+                        if d and facts.has_body(d):
+                            return self.apply_fn(facts.body(d), [v])
+            return v
         k = e.get('k')
         if k == 'mcall':
             return self._mcall(e, env)
@@ -346,6 +380,17 @@ class PlaceInterp(RecInterp):
                 if isinstance(tgt, SlotRef):
                     tgt.set(deref(self.val(e['rhs'], env)))
                     return ()
+                if isinstance(tgt, tuple) and len(tgt) == 3 and tgt[0] == 'struct' and isinstance(tgt[2], dict):
+                    new = deref(self.val(e['rhs'], env))
+                    if isinstance(new, tuple) and len(new) == 3 and new[0] == 'struct' and isinstance(new[2], dict) and new[1] == tgt[1]:
+                        # `*self = value` through a reference to a modelled struct: every holder of the struct sees the new content
+                        if new[2] is not tgt[2]:
+                            content = dict(new[2])
+                            tgt[2].clear()
+                            tgt[2].update(content)
+                        return ()
+                    node = dict(e, rhs=self._bindnode(new, env, e['rhs']))
+                    return super().val(node, env)
                 node = dict(e, lhs=dict(raw, a=self._bindnode(tgt, env, raw['a']))) if _has_call(raw['a']) else e
                 return super().val(node, env)
             if raw.get('k') == 'index':
@@ -360,6 +405,12 @@ class PlaceInterp(RecInterp):
             f = peel(e.get('f', {}))
             p = strip_generics(f.get('path') or '')
             seg = last_seg(p)
+            if f.get('k') == 'path' and (f.get('res', '').startswith('Ctor') or f.get('res', '') == 'SelfCtor'):
+                # a tuple struct of the workspace (`RawString(inner)`, `Self(inner)`): a struct with the fields `0`, `1`, .. — a place that `*self = ..` can write through
+                tname = p if f.get('res', '').startswith('Ctor') else strip_generics((e.get('t') or '').split('<')[0])
+                adt = getattr(self.ev.facts, 'adts', {}).get(tname)
+                if adt and adt.get('kind') == 'struct':
+                    return ('struct', tname, {str(i): deref(self.val(a, env)) for i, a in enumerate(e.get('args', []))})
             if f.get('k') == 'path' and p.startswith(MAP_CTOR_PREFIXES) and seg in ('new', 'with_capacity', 'default', 'with_capacity_and_hasher', 'with_hasher'):
                 return MapObj((), sorted_='btree' in p.lower())
             if (f.get('path') or '').startswith('kstring::') and len(e.get('args', [])) == 1 and self._workspace_body(f) is None:
@@ -458,10 +509,25 @@ class PlaceInterp(RecInterp):
                 return super().val(e, env)
             raise
         recv = deref(raw)
+        if name == 'take' and not e.get('args') and isinstance(recv, tuple) and len(recv) >= 2 and recv[0] == 'ctor' and recv[1].startswith('core::option::Option::'):
+            # Option::take on a place: a field of a modelled struct (through any reference to it) or a slot
+            r = peel(rnode)
+            if isinstance(raw, SlotRef):
+                raw.set(('ctor', NONE))
+                return recv
+            if r.get('k') == 'field':
+                base = deref(self.val(r['base'], env))
+                if isinstance(base, tuple) and len(base) == 3 and base[0] == 'struct' and r.get('name') in base[2]:
+                    base[2][r['name']] = ('ctor', NONE)
+                    return recv
         if name == 'into' and not e.get('args') and self._workspace_method(e) is None:
             body = self._from_impl((e.get('t') or '').strip(), recv, peel(rnode).get('t'))
             if body is not None:
                 return self.apply_fn(body, [recv])
+        if name == 'unwrap_or_default' and not e.get('args') and isinstance(recv, tuple) and recv[:2] == ('ctor', NONE):
+            dv = self._default_of(e.get('t'))
+            if not (isinstance(dv, tuple) and dv[:1] == ('default',)):
+                return dv
         if name == 'clone' and not e.get('args') and not isinstance(recv, (OccObj, VacObj, IterObj)) and not (isinstance(recv, tuple) and recv and recv[0] in ('rec', 'opaque', 'closure')):
             return clone_value(recv)
         special = isinstance(recv, (MapObj, OccObj, VacObj)) or (isinstance(recv, tuple) and len(recv) == 3 and recv[0] == 'ctor' and recv[2] and isinstance(recv[2][0], (OccObj, VacObj))) \
